@@ -517,3 +517,11 @@ Proof.
     cbn [sstep rstep is_marker orb];
     inv_in H; subst s'; cbn [s_pc s_rmc s_cdone s_sdone s_rc s_hu s_stale s_phu s_add s_x s_rr set_pc] in *.
   all: subst; try (eexists; split; [reflexivity|]; adaptive; fail).
+  all: repeat first
+         [ solve [eexists; split; [reflexivity|]; adaptive]
+         | match goal with
+           | |- context [match ?v with _ => _ end] => is_var v; destruct v
+           | |- context [if ?v then _ else _] => is_var v; destruct v
+           | |- context [Bool.eqb ?v _] => is_var v; destruct v
+           end; cbn in *; try discriminate ].
+Qed.
